@@ -28,3 +28,25 @@ Definition session_gen (st0 : cstate) (c : cfg) (ops : list op) : session_result
 (* two files from one object *)
 Definition second_file (c : cfg) (ops1 ops2 : list op) : session_result :=
   fst (session_gen (snd (session_gen c0 c ops1)) c ops2).
+
+(* operations given to a new object before its `with` block (declarations, loads, a pause ...): their lines open the file,
+   and __enter__ keeps the dwell total because instructions are pending - on a new object the total is zero unless a DWELL
+   line is pending, so "never restarted" and "restarted iff nothing is pending" are the same thing here *)
+Definition session_pre (c : cfg) (pre ops : list op) : session_result :=
+  let '(st0, e0, o0) := exec_list c pre c0 in
+  match o0 with
+  | Raised k => NotWritten k
+  | Ok =>
+    if negb (laser_ok c) then NotWritten VE
+    else
+      let '(st1, e1) := do_dwell st0 (Some 1) in
+      let '(st2, e2) := if aero c then enter_rot c st1 false else (st1, []) in
+      let '(st3, e3, o3) := exec_list c ops st2 in
+      let '(st4, e4) := if aero c then exit_rot c st3 else (st3, []) in
+      let '(st5, e5, o5) := if home c then do_move_to c st4 (Some (-2 # 1)) (Some 0) (Some 0) None
+                            else (st4, [], Ok) in
+      match o5 with
+      | Raised k => NotWritten k
+      | Ok => Written (c_pre st5 ++ flatten (e0 ++ header_toks c ++ e1 ++ e2 ++ e3 ++ e4 ++ e5)) (c_dwell st5) o3
+      end
+  end.
